@@ -195,7 +195,7 @@ func (it *Interp) setupCodecIntrinsics() {
 		if w.T == nil {
 			it.runtimePanic("invalid memory address or nil pointer dereference (nil io.Writer)")
 		}
-		m := it.prog.LookupMethod(w.T, nil, "Write")
+		m := it.findMethod(w.T, nil, "Write")
 		r := it.call(m, []Value{w.V, it.byteSliceOf(out)}, nil).(Tuple)
 		return r[1]
 	}
